@@ -90,6 +90,12 @@ CONF = {
         "tiers": tiers(8, 1500, 16, 40000),
         "require_classes": ["shared-column", "needs-differ", "membership-change", "pop", "refresh:manual", "refresh:autoinj", "refresh:autort"],
     },
+    "C11": {
+        "rule": "cases = sequential programs on 1-3 bars that continue after the terminal event: Abort on bars at or below total, bars with total<=0, non-decreasing increments/SetCurrent, SetTotal, EnableTriggerComplete and further Aborts after abort or completion, getters, Bar.Wait, render cycles, cancel/Shutdown anywhere; refresh none, manual, injected auto (bar goroutine survives the terminal event) and a real ticker; non-trivial = >=1 mutator issued after the terminal event and >=1 read after it; distinct by FNV-64 of the scenario JSON",
+        "assumptions": GO_ASSUME + SCHED_ASSUME + ["observations are ordered per observer (one client goroutine; frames in output order)", "updates after completion are generated non-decreasing only, as the statement requires", "hangs are left to C01"],
+        "tiers": tiers(8, 2500, 16, 60000),
+        "require_classes": ["refresh:none", "refresh:manual", "refresh:autoinj", "refresh:autort", "mutator-after-abort", "mutator-after-complete", "cancelled"],
+    },
     "C05": {
         "rule": "cases = sequential scenarios (container config, 1-7 bar specs, program of add/incr/set/abort/priority/write/tick/cancel steps) drawn by rapid; non-trivial = >=3 frames and >=1 change of the displayed set between frames; distinct by FNV-64 of the scenario JSON",
         "assumptions": GO_ASSUME + SCHED_ASSUME + ["one output Write call = one frame (cwriter flushes its buffer with a single Write)", "exact frame model only for manual refresh, sequential client and queue length > number of bars; otherwise history invariants"],
